@@ -533,7 +533,7 @@ class Gen:
         kind = rng.choice(['parent_kw', 'parent_kw', 'parent_attr', 'parent_attr', 'detach', 'elem', 'elem', 'bdt', 'bdt',
                            'bdt', 'hold', 'hold', 'readd', 'value_bdt', 'value_bdt', 'dt_assign', 'dt_assign'])
         if self.mixname == 'c09':      # C09 speaks of assignments, additions, deletions and copies only
-            kind = rng.choice(['bdt', 'bdt', 'parent_attr'])
+            kind = rng.choice(['bdt', 'bdt', 'parent_attr', 'elem', 'elem'])
         strict_full = self.strict and card[1] != -1 and reps >= card[1]
         if kind in ('parent_kw', 'parent_attr'):
             op = {'k': 'add', 'p': path, 'c': step, 'via': kind}
@@ -613,6 +613,8 @@ class Gen:
                 dst_i = rng.choice([i for i in range(len(reps_same)) if i != src_i])
                 return {'k': 'set', 'p': path, 'c': ['fld', src.key, dst_i, 0], 'via': 'item', 'bad': 'elem_assign',
                         'v': {'elem': [0, path + [['fld', src.key, src_i, 0]]]}}
+            if self.mixname == 'c09':
+                return None
             ri, mk = self.ensure_side(world, 'seg', seg_name)
             if mk is not None:
                 return mk
@@ -695,11 +697,52 @@ class Gen:
                     op['fault'] = {'close': rng.choice([errno.EIO, errno.ENOSPC])}
         return op
 
+    def op_deep_value_rejected(self, world):
+        """<chain of not yet existing children>.value = <something the leaf refuses></chain>"""
+        rng = self.rng
+        m = self.model(world)
+        if self.kind == 'msg':
+            ref = T.messages(self.version).get(self.init['name'])
+            segs, grps = self.msg_children(ref)
+            if not segs:
+                return None
+            c = rng.choice(segs)
+            path = [['seg', c[0], 0, rng.choice([0, 1])]]
+            seg_name = c[0]
+            node = m.reps('seg', c[0])[0] if m is not None and m.reps('seg', c[0]) else None
+        elif self.kind == 'seg':
+            path, seg_name, node = [], self.init['name'], m
+        else:
+            return None
+        fl = [(i, c) for i, c in _usable_fields(self.version, seg_name) if _usable_comps(self.version, c[1])]
+        if not fl:
+            return None
+        i, fe = rng.choice(fl)
+        comps = _usable_comps(self.version, fe[1])
+        cidx, ce = rng.choice(comps)
+        p = path + [['fld', i, 0, self.sp()], ['cmp', cidx, 0, self.sp()]]
+        subs = _usable_subs(self.version, ce[1])
+        if subs:
+            sidx, se = rng.choice(subs)
+            p = p + [['sub', sidx, 0, self.sp()]]
+            dt = se[1][2]
+        else:
+            dt = ce[1][2] if T.is_base(self.version, ce[1][2]) else 'ST'
+            p = p + [['sub', 1, 0, 0]]
+        if rng.random() < 0.5 or not self.strict:
+            return {'k': 'value', 'p': p, 'obj': rng.choice(['int', 'list']), 'text': '', 'bad': 'wrong_type_value'}
+        v = gen.invalid_literal(dt, self.tok, rng) or ('L' * 70000)
+        return {'k': 'value', 'p': p, 'text': v, 'bad': 'invalid_value'}
+
     # ---- rejected operations, generated on purpose (DESIGN §7.4)
     def op_bad(self, world):
         rng = self.rng
         targets = self.seg_targets(world)
         m = self.model(world)
+        if rng.random() < 0.12:
+            op = self.op_deep_value_rejected(world)
+            if op is not None:
+                return op
         causes = ['wrong_class', 'foreign_name', 'unknown_name', 'cardinality', 'level_mismatch', 'version_mismatch',
                   'invalid_value', 'overlong_value', 'delete_absent', 'datatype_change', 'other_segment_text',
                   'wrong_type_value', 'level_mismatch_replace', 'value_partial']
@@ -868,6 +911,7 @@ class Gen:
 def gen_init(rng, mix, tok):
     # C05: the "input text" half of the statement -- some initial texts carry invalid / over-long leaves
     inv = 0.15 if (mix == 'c05' and rng.random() < 0.4) else 0.0
+    ovf = 0.3 if (mix == 'c05' and rng.random() < 0.25) else 0.0     # more components than the datatype defines
     version = rng.choice(T.VERSIONS)
     level = rng.choice([1, 2])
     r = rng.random()
@@ -884,7 +928,8 @@ def gen_init(rng, mix, tok):
         if rng.random() < 0.08 and level == 2:
             init['name'] = 'ZZ1'
         elif rng.random() < 0.5:
-            init['text'] = gen.segment_text(rng, version, name, corpus._ec(0), tok, fill=rng.choice([0.15, 0.4]), invalid_p=inv)
+            init['text'] = gen.segment_text(rng, version, name, corpus._ec(0), tok, fill=rng.choice([0.15, 0.4]), invalid_p=inv,
+                                            overflow_p=ovf)
         return init
     if kind == 'msg':
         pool = [s for s in MSG_POOL if s in T.messages(version)]
